@@ -29,6 +29,22 @@ func genTriangulation(t *rapid.T, n int) *oracle.G {
 	g.Add(1, 2)
 	g.Add(0, 2)
 	faces := [][3]int{{0, 1, 2}, {0, 1, 2}}
+	if n >= 12 && rapid.IntRange(0, 2).Draw(t, "icosahedral") == 0 {
+		// start from the icosahedron: the planar graphs of minimum degree 5 (degeneracy exactly 5) all contain such a core,
+		// and stacking vertices into its faces keeps it
+		g = oracle.New(12)
+		faces = faces[:0]
+		u := func(i int) int { return 1 + i%5 }
+		l := func(i int) int { return 6 + i%5 }
+		for i := 0; i < 5; i++ {
+			faces = append(faces, [3]int{0, u(i), u(i + 1)}, [3]int{11, l(i), l(i + 1)}, [3]int{u(i), u(i + 1), l(i + 1)}, [3]int{u(i), l(i), l(i + 1)})
+		}
+		for _, f := range faces {
+			g.Add(f[0], f[1])
+			g.Add(f[1], f[2])
+			g.Add(f[0], f[2])
+		}
+	}
 	for g.N < n {
 		fi := rapid.IntRange(0, len(faces)-1).Draw(t, "face")
 		f := faces[fi]
